@@ -27,10 +27,16 @@ TECH = "contract-based deductive verification: weakest-precondition VCs over go/
 BASE = ("Trusted: govc's SSA->SMT translation, go/types+go/ssa, the SMT solvers, the assumed contracts of external functions named in the "
         "evidence (trusted/*.spec), Go memory safety, mutex atomicity. Partial correctness (no termination claim unless a decreases obligation is listed). ")
 
-def claim(pid, text, note="", residual=(), assumed=(), pkgs=None):
-    d = dict(text=text, note=BASE + note, technique=TECH, residual=list(residual), assumed=list(assumed))
+def claim(pid, text, note="", residual=(), assumed=(), pkgs=None, bounded=None, category="proof", level=None, explanation=None, technique=None):
+    d = dict(text=text, note=BASE + note, technique=technique or TECH, residual=list(residual), assumed=list(assumed), category=category)
     if pkgs:
         d["pkgs"] = pkgs
+    if bounded:
+        d["bounded"] = bounded
+    if level:
+        d["level"] = level
+    if explanation:
+        d["explanation"] = explanation
     CLAIMED[pid] = d
 
 claim("C05", "Proof of buildErrorExtra's type-selection contract for every dynamic error type: RpcError -> its Type, each typed framework error -> its wire name (each ErrorType method has its own proved contract), every other error value (foreign dynamic types included) -> RuntimeError; traceback and frames absent unless debug.",
@@ -55,6 +61,19 @@ claim("C27", "Proof that unpackOAuthCookie is panic-free for every cookie string
 claim("C33", "Proof (data-flow contracts) that the unique part of every S3 and GCS object key is rendered from a fresh random source: s3.generateUUID formats bytes obtained from crypto/rand, S3Storage.Upload and GCSStorage.Upload build the key as prefix + that text (+ extension).",
       "crypto/rand.Read and uuid.New return values that differ from all others (standard idealisation, trusted/storage.spec).", ["that the storage service does not alias distinct keys"],
       pkgs=[{"dir": "/repo/vgirpc/s3", "pattern": "."}, {"dir": "/repo/vgirpc/gcs", "pattern": "."}])
+
+claim("C02", "Proof over every path of serveStream that a stream call answered with an error has first handed the client's input stream to a draining reader (drainInputStream or the lockstep reader), and that both serveStream's tail and drainInputStream read their reader to exhaustion.",
+      "ipc.NewReader/Reader.Next ghost contracts (inputTaken, exhausted) are assumed.", ["serveOne/serveUnary request-response counting and ordering", "Unix/TCP listeners", "client cancel timing"])
+claim("C03", "Proof that deserializeParams and resolveColumn never index an Arrow column or batch out of range for any client-supplied batch (row 0 is read only after the row count was checked; column indices come from resolveColumn's proved range).",
+      "arrow-go observers are functions of immutable objects and element accessors require an in-range index (trusted/arrow.spec); setFieldFromArrow's own body (reflect type switch) is outside: only its precondition is used.", ["panic-freedom of the whole dispatch path (serveOne, HTTP handlers) beyond these functions and handleStreamExchange's guarded state assertions (C14)", "panics inside Arrow/zstd/gob", "every-HTTP-request-gets-a-response as a whole-server statement"])
+claim("C14", "Proof that handleStreamExchange hands the authenticated cursor's own state and call id to the continuation kind its route's method declares, with no unguarded dynamic-type assertion; the obligations that the token was minted by the same method fail because tokens carry no method, and are recorded as a known finding.",
+      "", ["method binding itself (known finding)", "handleStreamInit minting side"])
+claim("C28", "BOUNDED stand-in for the round trip (exhaustive run of the real buildWWWAuthenticate/Parse* over 285,610 metadata values: ids/secrets of length <= 2 over {a,_,-}, flag, 5 adversarial URLs) plus a PROOF that parseQuotedParam never slices out of range and that its scan terminates, for all header and parameter strings.",
+      "the bounded run is not a proof and is not counted in obligations/discharged.", ["round trip beyond the stated bound"],
+      bounded=[{"test": "c28_wwwauth_roundtrip_test.go", "bound": "optional ids/secrets in all strings of length <= 2 over {a,_,-} (13 values each, 13^4), flag in {false,true}, 5 adversarial metadata URLs: 285,610 cases"}],
+      category="other", level="other",
+      explanation="Functional round trip decided only by a bounded exhaustive run of the real functions (stated bound in bounded_stand_ins); panic-freedom and termination of parseQuotedParam are discharged as proof obligations (obligations/discharged count only those).",
+      technique="contract-based deductive verification (panic-freedom, termination) + bounded exhaustive stand-in for the string round trip")
 
 # properties not claimed: reason
 NOT_APPLICABLE = {
@@ -89,6 +108,9 @@ def main():
             "technique": c["technique"],
         })
         props[pid] = {"pkgs": c.get("pkgs", [ROOT]), "residual": c.get("residual", []), "assumed": c.get("assumed", [])}
+        for k in ("bounded", "level", "explanation"):
+            if k in c:
+                props[pid][k] = c[k]
     na = []
     for pid in ALL:
         if pid in CLAIMED:
